@@ -439,6 +439,44 @@ func (s *Store) Eq(x, y *Term) *Term {
 		if same {
 			return tTrue
 		}
+		// one side is a concatenation of independent pieces (three bytes
+		// reassembled into a word, say): compare piece by piece, so that
+		// "crc&0xffffff == b0<<16|b1<<8|b2" and "byte(crc>>16) == b0 && ..."
+		// become the same atoms
+		for side := 0; side < 2; side++ {
+			u, v, bv := x, y, by
+			if side == 1 {
+				u, v, bv = y, x, bx
+			}
+			selfBits := false
+			for _, b := range bv {
+				if b.t == v {
+					selfBits = true
+					break
+				}
+			}
+			if selfBits {
+				continue
+			}
+			ps := piecesOf(bv)
+			if len(ps) < 2 || len(ps) > 8 {
+				continue
+			}
+			res := tTrue
+			hi := v.w - 1
+			for _, pc := range ps {
+				lo := hi - pc.w + 1
+				var pt *Term
+				if pc.src == nil {
+					pt = BV(pc.val, pc.w)
+				} else {
+					pt = s.rawExtract(pc.src, pc.hi, pc.lo)
+				}
+				res = s.And(res, s.Eq(s.Extract(u, hi, lo), pt))
+				hi = lo - 1
+			}
+			return res
+		}
 	}
 	// ite(c, k1, k2) == k  with constants: fold
 	if y.IsConst() && x.op == OpIte && x.a[1].IsConst() && x.a[2].IsConst() {
